@@ -56,14 +56,14 @@ def s1_ownership(ctx):
     ws = writers_of_attr(M, 'cash')
     ctx.floor('C01.S1', 'writers of Portfolio.cash', len(ws), 1)
     for w in ws:
-        ok = w.fn.cls is not None and w.fn.cls.name == 'Portfolio'
+        ok = w.fn.cls is not None and w.fn.cls.name in M.owner_family('Portfolio')
         ctx.require(ok, 'C01.S1', 'writer of .cash in %s' % w.fn.qn, w.where,
                     'cash balance written outside class Portfolio ("nothing else ever changes a cash balance")',
                     key='C01.S1|cash|%s' % w.fn.qn)
     ws = writers_of_attr(M, 'cash_balances', getters=GETTERS_CASH_BALANCES)
     ctx.floor('C01.S1', 'writers of SimulatedBroker.cash_balances', len(ws), 1)
     for w in ws:
-        ok = w.fn.cls is not None and w.fn.cls.name == 'SimulatedBroker'
+        ok = w.fn.cls is not None and w.fn.cls.name in M.owner_family('SimulatedBroker')
         ctx.require(ok, 'C01.S1', 'writer of .cash_balances in %s' % w.fn.qn, w.where,
                     'master cash written outside class SimulatedBroker', key='C01.S1|cash_balances|%s' % w.fn.qn)
     # public entry points that (transitively, through private helpers) change a balance: exactly the tabled movements
@@ -244,7 +244,7 @@ def s5_history(ctx):
     ctx.floor('C01.S5', 'writers of Portfolio.history', len(ws), 1)
     for w in ws:
         how = w.how
-        ok = w.fn.cls is not None and w.fn.cls.name == 'Portfolio' and (how.startswith('mut:append') or (how.startswith('assign:field') and w.fn.name == '__init__'))
+        ok = w.fn.cls is not None and w.fn.cls.name in M.owner_family('Portfolio') and (how.startswith('mut:append') or (how.startswith('assign:field') and w.fn.name == '__init__'))
         ctx.require(ok, 'C01.S5', 'history writer %s in %s' % (how, w.fn.qn), w.where, 'history is written only by append inside Portfolio (and bound once in __init__)',
                     key='C01.S5|writer|%s|%s' % (w.fn.qn, how.split(':')[0] + ':' + how.split(':')[1]))
     amount, txn = V('amount'), V('txn')
